@@ -442,6 +442,56 @@ class StateWorld(Run):
         self._fault_coins(rng, op, self._count_undetermined(self.model[name], obs2))
         return op
 
+    RESAMPLE_K = 48
+
+    def _p_resample(self, rng):
+        """the same measurement repeated on K harness-made copies of the same state under K
+        different entropy words: every undetermined entry must show both outcomes
+        (false-alarm probability 2^(1-K) per entry)."""
+        name = self._pick(rng)
+        obs = self.gen_obs(rng, name, L=rng.choice([1, 1, 2, 3]))
+        if self._count_undetermined(self.model[name], obs) == 0:
+            return None
+        return {"op": "resample", "slot": name, "obs": sut.strs(obs),
+                "entropies": [new_entropy(rng) for _ in range(self.RESAMPLE_K)]}
+
+    def _a_resample(self, op):
+        name, st = self._state(op)
+        n = self.n
+        obs = sut.parse_list(op["obs"])
+        if any(len(p[0]) != n for p in obs) or not obs or "c06" not in self.flags:
+            raise Skip()
+        for i in range(len(obs)):
+            for j in range(i):
+                if not rm.pcommute(obs[i][0], obs[j][0]):
+                    raise Skip()
+        pre = self.model[name]
+        gs, ps, r = np.array(st.gs).copy(), np.array(st.ps).copy(), int(st.r)
+        outs = []
+        for e in op["entropies"]:
+            c = self.S.mk_state(gs, ps, r)
+            seams.prepare_call({"entropy": e})
+            try:
+                out, _ = c.measure(self.S.mk_list(obs))
+            except Exception as ex:
+                raise Violation("c06.exception", {"exc": repr(ex), "obs": op["obs"]})
+            outs.append([int(x) for x in out])
+        if sut.raw_state(st) != (gs.tobytes(), ps.tobytes(), tuple(gs.shape), r):
+            raise Skip()
+        m = pre.copy()
+        for k, P in enumerate(obs):
+            if m.eigenvalue(P) is None:
+                seen = set(o[k] for o in outs)
+                if len(seen) < 2:
+                    raise Violation("c06.outcome_not_random",
+                                    {"k": k, "obs": rm.pstr(P), "always": sorted(seen), "trials": len(outs),
+                                     "prior_rank": pre.rank})
+                m, _ = m.project(P, 1)
+        self.stats["resample"] += 1
+        self.oracle_steps += 1
+        self.nontrivial = True
+        return [len(outs)]
+
     def _p_postselect(self, rng):
         name = self._pick(rng)
         m = self.model[name]
